@@ -317,6 +317,10 @@ func (s *serverManagementService) Reload(ctx context.Context, req *emptypb.Empty
 		// Adjust advanced settings: user hint is mandatory.
 		mux.SetServerUserHintIsMandatory(config.GetAdvancedSettings().GetUserHintIsMandatory())
 	}
+	if socks5Server := socks5ServerRef.Load(); socks5Server != nil {
+		// Adjust users: the permissions enforced by the socks5 server.
+		socks5Server.SetUsers(appctlcommon.UserListToMap(config.GetUsers()))
+	}
 	log.Infof("completed Reload request from RPC caller")
 	return &emptypb.Empty{}, nil
 }
